@@ -2,7 +2,7 @@ SPECIFICATION Spec
 CONSTANTS Channels = {1, 2}
           MaxPays = 2
           RERANDOMIZE = TRUE
-          LEAK = FALSE
+          LEAK = TRUE
 PROPERTY NoReuse
 INVARIANT NoSecretLeak
 CHECK_DEADLOCK FALSE
